@@ -11,11 +11,25 @@ try:
     svg = SVG.fromstring(doc)
     out = svg.topicosvg()
     text = out.tostring()
-    bad = SVG.fromstring(text).checkpicosvg()
-    print(json.dumps(dict(kind="returned", seconds=time.time() - t0, output=text[:4000], violations=list(bad))))
 except RecursionError as e:
     print(json.dumps(dict(kind="exception", type="RecursionError", seconds=time.time() - t0)))
+    sys.exit(0)
 except MemoryError:
     print(json.dumps(dict(kind="exception", type="MemoryError", seconds=time.time() - t0)))
+    sys.exit(0)
 except Exception as e:  # noqa
     print(json.dumps(dict(kind="exception", type=type(e).__name__, text=str(e)[:200], seconds=time.time() - t0)))
+    sys.exit(0)
+# the conversion returned normally: what it returned must be a well-formed document of the pico grammar
+# (judged by the independent grammar oracle, not by the library's own gate)
+verdict = dict(kind="returned", seconds=time.time() - t0, output=text[:4000], violations=[])
+try:
+    from lxml import etree
+
+    etree.fromstring(text.encode())
+    from bounded import oracles
+
+    verdict["violations"] = list(oracles.grammar_violations(text, 3))[:5]
+except Exception as e:  # noqa
+    verdict["malformed"] = f"{type(e).__name__}: {str(e)[:160]}"
+print(json.dumps(verdict))
